@@ -413,6 +413,19 @@ type Printer struct {
 	used  map[string]bool // free constants used
 	funs  map[string]bool // function symbols used
 	bound map[int]bool
+	// AbstractNL prints products of two non-literal terms as applications of an uninterpreted, commutative nlmul
+	AbstractNL bool
+}
+
+func (p *Printer) opOf(t *Term) (string, []*Term) {
+	if p.AbstractNL && t.Op == "*" && len(t.Args) == 2 && t.Args[0].Int == nil && t.Args[1].Int == nil {
+		a, b := t.Args[0], t.Args[1]
+		if a.id > b.id {
+			a, b = b, a
+		}
+		return "nlmul", []*Term{a, b}
+	}
+	return t.Op, t.Args
 }
 
 func NewPrinter(ts *TermStore) *Printer {
@@ -461,10 +474,11 @@ func (p *Printer) Print(t *Term) string {
 		sb.WriteByte(')')
 		return sb.String()
 	}
+	op, oargs := p.opOf(t)
 	sb.WriteByte('(')
-	sb.WriteString(t.Op)
-	p.funs[t.Op] = true
-	for _, a := range t.Args {
+	sb.WriteString(op)
+	p.funs[op] = true
+	for _, a := range oargs {
 		sb.WriteByte(' ')
 		sb.WriteString(p.Print(a))
 	}
@@ -519,10 +533,11 @@ func (p *Printer) printNoShare(t *Term) string {
 		sb.WriteByte(')')
 		return sb.String()
 	}
+	op, oargs := p.opOf(t)
 	sb.WriteByte('(')
-	sb.WriteString(t.Op)
-	p.funs[t.Op] = true
-	for _, a := range t.Args {
+	sb.WriteString(op)
+	p.funs[op] = true
+	for _, a := range oargs {
 		sb.WriteByte(' ')
 		sb.WriteString(p.printNoShare(a))
 	}
